@@ -3,9 +3,18 @@
        of (re-entrant) reads the body runs at most once, later reads repeat the first result, a
        read during evaluation is reported as infinite recursion and does not disturb the cell;
    (2) neededness in the definitional interpreter: the branch not taken and the right operand of a
-       short-circuited `&&`/`||` cannot influence the outcome, the store or the trace. -/
+       short-circuited `&&`/`||` cannot influence the outcome, the store or the trace;
+   (3) (round 3) store invariants of the WHOLE interpreter `Eval.run`, every Task and Expr case
+       (Proofs/EvalNeedStore, EvalNeedRun: `run_good`, induction on fuel):
+       - the store only moves forward (cells/objects appended, a touched cell never changes, the
+         trace only grows) — hence `force` is idempotent: a cell that produced a value or an error
+         repeats it for ever, from every later store, without running anything;
+       - a thunk cell that is still unevaluated at the end of a run was unobservable: its content
+         can be replaced by anything (`Sim`) — hence unused `local` bindings, unread array elements;
+       - a call that supplies a parameter never looks at that parameter's default. -/
 import JrsVerif.Model.Thunk
 import JrsVerif.Model.Eval
+import JrsVerif.Proofs.EvalNeedUnused
 
 namespace JrsVerif.Thunk
 
@@ -156,3 +165,202 @@ theorem or_short_circuit (n : Nat) (c : Ctx) (a b b' : Expr) (s s' : St)
   simp only [h, pure, ExceptT.pure, ExceptT.mk, StateT.pure]
 
 end JrsVerif.Eval
+
+/-! ### Round 3: the whole interpreter (`Proofs/EvalNeed*.lean`) -/
+namespace JrsVerif.EvalNeed
+open JrsVerif.Eval
+
+/-- C03.4  every task of the interpreter, with any fuel, from any store, only moves the store
+    forward: cells and objects are appended, a cell that is pending / done / failed keeps its
+    content, objects are immutable, the trace is extended -/
+theorem store_only_moves_forward (n : Nat) (task : Eval.Task) (s : St) :
+    Ext s (exec (run n task) s).2 :=
+  run_ext n task s
+
+/-- C03.5  "is never evaluated, so an error, a trace or non-termination inside it is unobservable":
+    for every task, fuel and pair of stores that differ only in the CONTENTS of the thunk cells `U`,
+    if those cells are still unevaluated when the run from the first store ends, the run from the
+    second store has the same outcome (value, error or out-of-fuel), the same trace, the same
+    objects and caches, and the same cells outside `U` -/
+theorem unevaluated_cells_unobservable (U : Ref → Prop) (n : Nat) (task : Eval.Task) (s s' : St)
+    (h : Sim U s s') (hu : UL U (exec (run n task) s).2) :
+    (exec (run n task) s').1 = (exec (run n task) s).1
+      ∧ Sim U (exec (run n task) s).2 (exec (run n task) s').2 :=
+  run_sim U n task s s' h hu
+
+/-- C03.6  `force` is idempotent (interpreter-level "evaluated at most once") -/
+theorem force_is_idempotent (n : Nat) (r : Ref) (s t : St) (v : Val)
+    (h : exec (run (n+1) (.force r)) s = (.ok (.val v), t)) :
+    ∀ u, Ext t u → ∀ m, exec (run (m+1) (.force r)) u = (.ok (.val v), u) :=
+  force_idempotent n r s t v h
+
+/-- C03.6b  … in particular after ANY sequence of further tasks -/
+theorem force_again_after_anything (n m : Nat) (r : Ref) (s t : St) (v : Val)
+    (tasks : List (Nat × Eval.Task)) (h : exec (run (n+1) (.force r)) s = (.ok (.val v), t)) :
+    let u := tasks.foldl (fun u p => (exec (run p.1 p.2) u).2) t
+    exec (run (m+1) (.force r)) u = (.ok (.val v), u) :=
+  force_twice n m r s t v tasks h
+
+/-- C03.6c  a failed cell repeats an error and is not re-run either -/
+theorem force_error_is_sticky (n : Nat) (r : Ref) (s t : St) (e : Err) (hlt : r < s.cells.size)
+    (h : exec (run (n+1) (.force r)) s = (.error (.err e), t)) :
+    ∀ u, Ext t u → ∀ m, ∃ e', exec (run (m+1) (.force r)) u = (.error (.err e'), u) :=
+  force_error_sticky n r s t e hlt h
+
+/-- C03.7 ★ unused_binding (semantic form: "unused" = the binding's cell is never forced) -/
+theorem unused_binding_unobservable (n : Nat) (c : Ctx) (binds binds' : List Bind) (body : Expr) (s : St)
+    (hn : binds.map bindName = binds'.map bindName) :
+    let c' := bindCtx c (binds.map bindName) s.cells.size c.this c.dollar
+    let U := diffU s.cells.size (binds.map (bindCell c')) (binds'.map (bindCell c'))
+    UL U (exec (run (n+1) (.eval c (.localE binds body))) s).2 →
+      (exec (run (n+1) (.eval c (.localE binds' body))) s).1
+          = (exec (run (n+1) (.eval c (.localE binds body))) s).1
+        ∧ Sim U (exec (run (n+1) (.eval c (.localE binds body))) s).2
+                (exec (run (n+1) (.eval c (.localE binds' body))) s).2 :=
+  unused_binding n c binds binds' body s hn
+
+/-- C03.7b  `local x = e; body`: outcome, trace and store (up to the one cell) independent of `e` -/
+theorem unused_local_unobservable (n : Nat) (c : Ctx) (x : String) (e e' body : Expr) (s t : St)
+    (out : Except Stop Out)
+    (h : exec (run (n+1) (.eval c (.localE [.val x e] body))) s = (out, t))
+    (hl : lazyCell (cellAt t s.cells.size) = true) :
+    ∃ t', exec (run (n+1) (.eval c (.localE [.val x e'] body))) s = (out, t')
+      ∧ t'.trace = t.trace ∧ t'.objs = t.objs ∧ t'.cache = t.cache ∧ t'.cells.size = t.cells.size
+      ∧ ∀ r, r ≠ s.cells.size → cellAt t' r = cellAt t r :=
+  unused_local n c x e e' body s t out h hl
+
+/-- C03.8 ★ unread_element -/
+theorem unread_element_unobservable (n : Nat) (c : Ctx) (es es' : List Expr) (s : St)
+    (hlen : es.length = es'.length) :
+    let U := diffU s.cells.size (es.map (.waiting c)) (es'.map (.waiting c))
+    let t := (exec (run (n+1) (.eval c (.arr es))) s).2
+    let t' := (exec (run (n+1) (.eval c (.arr es'))) s).2
+    (exec (run (n+1) (.eval c (.arr es'))) s).1 = (exec (run (n+1) (.eval c (.arr es))) s).1
+      ∧ Sim U t t'
+      ∧ ∀ m task, UL U (exec (run m task) t).2 →
+          (exec (run m task) t').1 = (exec (run m task) t).1
+            ∧ Sim U (exec (run m task) t).2 (exec (run m task) t').2 :=
+  unread_element n c es es' s hlen
+
+/-- an array literal evaluates none of its elements -/
+theorem array_literal_is_lazy (n : Nat) (c : Ctx) (es : List Expr) (s : St) :
+    exec (run (n+1) (.eval c (.arr es))) s
+      = (.ok (.val (.arr (List.range' s.cells.size es.length))), allocAll s (es.map (.waiting c))) :=
+  exec_eval_arr n c es s
+
+/-- C03.9 ★ overridden_default -/
+theorem overridden_default_never_read (n : Nat) (fc : Ctx) (ps ps' : List Param) (body : Expr)
+    (pos : List Ref) (named : List (String × Ref)) (hlen : ps.length = ps'.length)
+    (h : ∀ (i : Nat) (p p' : Param), ps[i]? = some p → ps'[i]? = some p' →
+        paramName p = paramName p' ∧
+          (paramDflt p = paramDflt p' ∨ i < pos.length ∨ paramName p ∈ named.map (·.1))) :
+    run (n+1) (.call (.func fc ps body) pos named) = run (n+1) (.call (.func fc ps' body) pos named) :=
+  overridden_default n fc ps ps' body pos named hlen h
+
+/-- C03.9b  the same at expression level, for lazy and tailstrict calls alike:
+    `(function(ps) body)(args)` does not depend on the defaults of the parameters that `args` supply -/
+theorem overridden_default_never_read_expr (n : Nat) (c : Ctx) (ps ps' : List Param) (body : Expr)
+    (pos : List Expr) (named : List (String × Expr)) (ts : Bool) (hlen : ps.length = ps'.length)
+    (h : ∀ (i : Nat) (p p' : Param), ps[i]? = some p → ps'[i]? = some p' →
+        paramName p = paramName p' ∧
+          (paramDflt p = paramDflt p' ∨ i < pos.length ∨ paramName p ∈ named.map (·.1))) :
+    run (n+2) (.eval c (.apply (.func ps body) pos named ts))
+      = run (n+2) (.eval c (.apply (.func ps' body) pos named ts)) :=
+  overridden_default_expr n c ps ps' body pos named ts hlen h
+
+/-- C03.10  tailstrict, the trivial case: with no arguments the flag is irrelevant -/
+theorem tailstrict_no_args (n : Nat) (c : Ctx) (f : Expr) :
+    run (n+1) (.eval c (.apply f [] [] true)) = run (n+1) (.eval c (.apply f [] [] false)) := by
+  conv => lhs; unfold run
+  conv => rhs; unfold run
+  simp only [List.forIn_nil]
+
+/-! #### non-vacuity: the hypotheses are met by real programs -/
+
+def ctx0 : Ctx := { env := [], this := none, dollar := none }
+def bomb : Expr := .errorE (.str "bomb")
+
+/-- `local x = error "bomb"; true` ends with a value and with `x`'s cell (cell 0) unevaluated -/
+example : exec (run 3 (.eval ctx0 (.localE [.val "x" bomb] .tru))) {} = (.ok (.val (.bool true)),
+    allocAll {} [.waiting (bindCtx ctx0 ["x"] 0 none none) bomb]) := by rfl
+example : lazyCell (cellAt (exec (run 3 (.eval ctx0 (.localE [.val "x" bomb] .tru))) {}).2 0) = true := by rfl
+/-- … while `local x = error "bomb"; x` does force it (so the hypothesis is not always true) -/
+example : lazyCell (cellAt (exec (run 5 (.eval ctx0 (.localE [.val "x" bomb] (.var "x")))) {}).2 0) = false := by rfl
+/-- `local a = [error "bomb", true]; a[1]`-style read: forcing element 1 leaves element 0 unevaluated -/
+example :
+    let t := (exec (run 2 (.eval ctx0 (.arr [bomb, .tru]))) {}).2
+    (exec (run 3 (.force 1)) t).1 = .ok (.val (.bool true))
+      ∧ lazyCell (cellAt (exec (run 3 (.force 1)) t).2 0) = true := by
+  constructor <;> rfl
+/-- force twice: the second read answers from the cell -/
+example :
+    let t := (exec (run 2 (.eval ctx0 (.arr [.tru]))) {}).2
+    (exec (run 3 (.force 0)) t).1 = .ok (.val (.bool true))
+      ∧ cellAt (exec (run 3 (.force 0)) t).2 0 matches .done (.bool true) := by
+  constructor <;> rfl
+/-- a default that is overridden: `function(a, b = error "bomb") a` called with two arguments -/
+example (n : Nat) (r1 r2 : Ref) :
+    run (n+1) (.call (.func ctx0 [.mk "a" none, .mk "b" (some bomb)] (.var "a")) [r1, r2] [])
+      = run (n+1) (.call (.func ctx0 [.mk "a" none, .mk "b" (some .tru)] (.var "a")) [r1, r2] []) := by
+  apply overridden_default_never_read
+  · rfl
+  · intro i p p' hp hp'
+    match i with
+    | 0 => simp at hp hp'; subst hp; subst hp'; exact ⟨rfl, Or.inl rfl⟩
+    | 1 => simp at hp hp'; subst hp; subst hp'; exact ⟨rfl, Or.inr (Or.inl (by simp))⟩
+    | k + 2 => simp at hp
+
+/-- `(function(a, b = error "bomb") a)(true, b = true)` evaluates to `true` -/
+example : (exec (run 6 (.eval ctx0 (.apply (.func [.mk "a" none, .mk "b" (some bomb)] (.var "a")) [.tru] [("b", .tru)] false))) {}).1
+    = .ok (.val (.bool true)) := by rfl
+
+/-! #### statements that are NOT proved (kept visible; not obligations) -/
+
+/-- the syntactic form of `unused_binding`: for a free-variable judgement `notFree` of the language,
+    `local x = e; b` with `x` not free in `b` does not depend on `e`.  What is proved above is the
+    semantic form (`unused_local_unobservable`: the cell is never forced ⇒ unobservable); the
+    missing half, "not free ⇒ never forced", needs a reachability invariant over environments
+    captured in closures and is covered by the trace correspondence only. -/
+def unusedBindingSyntacticStmt (notFree : String → Expr → Prop) : Prop :=
+  ∀ (n : Nat) (c : Ctx) (x : String) (e e' b : Expr) (s : St), notFree x b →
+    (exec (run n (.eval c (.localE [.val x e'] b))) s).1 = (exec (run n (.eval c (.localE [.val x e] b))) s).1
+      ∧ (exec (run n (.eval c (.localE [.val x e'] b))) s).2.trace
+          = (exec (run n (.eval c (.localE [.val x e] b))) s).2.trace
+
+/-- pointwise relation of two lists of the same length -/
+def listRel {α : Type} (R : α → α → Prop) : List α → List α → Prop
+  | [], [] => True
+  | a :: as, b :: bs => R a b ∧ listRel R as bs
+  | _, _ => False
+
+/-- an object field that is never read can be replaced by anything: field bodies live in the
+    object table (`St.objs`), not in thunk cells, so `Sim` does not cover them.  Statement: if no
+    cache entry for a field name `f` exists when the run ends, the bodies of all fields named `f`
+    are unobservable.  Covered by the trace correspondence only. -/
+def unreadFieldStmt : Prop :=
+  ∀ (n : Nat) (task : Eval.Task) (s s' : St) (f : String),
+    s'.cells = s.cells → s'.cache = s.cache → s'.layerEnvs = s.layerEnvs → s'.asserted = s.asserted →
+    s'.asserting = s.asserting → s'.trace = s.trace → s'.objs.size = s.objs.size →
+    (∀ o, listRel (fun (l l' : Layer) =>
+        l'.mask = l.mask ∧ l'.dollar = l.dollar ∧ l'.locals = l.locals ∧ l'.asserts = l.asserts ∧
+        l'.assertEnv = l.assertEnv ∧
+        listRel (fun (d d' : FieldDef) => d'.name = d.name ∧ d'.plus = d.plus ∧ d'.vis = d.vis ∧
+          d'.env = d.env ∧ (d.name ≠ f → d'.body = d.body)) l.fields l'.fields)
+      (s.objs.getD o []) (s'.objs.getD o [])) →
+    (∀ p ∈ (exec (run n task) s).2.cache, p.1.2.1 ≠ f) →
+    (exec (run n task) s').1 = (exec (run n task) s).1
+      ∧ (exec (run n task) s').2.trace = (exec (run n task) s).2.trace
+
+/-- `tailstrict` "only forces arguments earlier and never changes a result that exists": a program
+    whose top-level call is tailstrict and yields a value yields the same JSON value when the call
+    is lazy (possibly with more fuel), and every trace label of the lazy run occurs at least as
+    often in the tailstrict run (the extra ones come from arguments the callee never uses).
+    NOT proved: the two runs allocate cells in a different order, so it needs a store relation up
+    to a renaming of cell indices.  Only `tailstrict_no_args` is proved. -/
+def tailstrictFullStmt : Prop :=
+  ∀ (fuel : Nat) (f : Expr) (pos : List Expr) (named : List (String × Expr)) (j : JV) (tr : List String),
+    evalProgram fuel (.apply f pos named true) = .value j tr →
+    ∃ fuel' tr', evalProgram fuel' (.apply f pos named false) = .value j tr'
+      ∧ ∀ l, tr'.count l ≤ tr.count l
+
+end JrsVerif.EvalNeed
